@@ -29,6 +29,9 @@ def _akey(a):
 # ----------------------------------------------------------------------------
 # Polynomials
 # ----------------------------------------------------------------------------
+SYM_SUBS = {}      # size symbol -> Poly, installed by regions.set_case for the equality branches of a size case
+
+
 class Poly:
     __slots__ = ("t", "_h")
 
@@ -48,6 +51,8 @@ class Poly:
 
     @staticmethod
     def sym(name):
+        if SYM_SUBS and name in SYM_SUBS:
+            return SYM_SUBS[name]        # equality branch of a size case (regions.SizeCase)
         return Poly.atom(("s", name))
 
     # -- predicates
